@@ -24,8 +24,8 @@ def phylipInmap (abc : Option Abc) : InMap :=
   | some a =>
     -- for (sym = 1; sym < 128; sym++) inmap[sym] = abc->inmap[sym];   (entry 0 is overwritten below)
     let t := a.inmap
-    -- for (sym = '0'; sym < '9'; sym++) inmap[sym] = eslDSQ_IGNORED;   NB `<`: '9' is NOT ignored in digital mode
-    let t := (List.range 9).foldl (fun t i => t.setIfInBounds (48 + i) dsqIGNORED) t
+    -- for (sym = '0'; sym <= '9'; sym++) inmap[sym] = eslDSQ_IGNORED;   (fix 1a55a73; `<` before)
+    let t := (List.range 10).foldl (fun t i => t.setIfInBounds (48 + i) dsqIGNORED) t
     let t := t.setIfInBounds 63 a.missing        -- '?'
     let t := t.setIfInBounds 126 dsqILLEGAL      -- '~'
     let t := t.setIfInBounds 95 dsqILLEGAL       -- '_'
